@@ -57,6 +57,8 @@ def registry():
         lazy_py.register(_REG, PROPERTIES)
         from . import inherit_py
         inherit_py.register(_REG, PROPERTIES)
+        from . import itemspace_py
+        itemspace_py.register(_REG, PROPERTIES)
         from . import serialize_py
         serialize_py.register(_REG, PROPERTIES)
         from . import registry_py
